@@ -377,6 +377,10 @@ def _main_batch(check, args, tier, seed, t0):
     for i, v, rec in agg.violations:
         by_key.setdefault(CheckBase.vkey(v), []).append((i, v, rec))
     reported = []
+    if by_key:
+        print('violation classes (oracle @ site : runs):')
+        for key, lst in list(by_key.items())[:80]:
+            print('  %s @ %s : %d' % (key[0], key[1], len(lst)))
     known_hit = collections.Counter()
     nviol = 0
     for key, lst in by_key.items():
